@@ -164,7 +164,7 @@ void svt_tile_init(TileInfo *cur_tile_info, FrameHeader *frame_header, int32_t t
                    int32_t tile_col);
 
 static int read_is_valid(const uint8_t *start, size_t len, const uint8_t *end) {
-    return len != 0 && len <= (size_t)(end - start);
+    return len != 0 && start <= end && len <= (size_t)(end - start);
 }
 
 static INLINE EbErrorType init_svt_reader(SvtReader *r, const uint8_t *data,
